@@ -58,6 +58,7 @@ type Emit struct {
 	Res    types.Object // variable receiving the returned range, if any
 	ResStr string
 }
+
 // Inline: the body of a parametric helper (an unexported emitter whose text depends on its string / Expression
 // parameters) evaluated at the call site with the parameters bound to the arguments. A plain return inside it ends the
 // helper, not the caller.
@@ -130,10 +131,11 @@ type GFunc struct {
 	skels   []*Skeleton
 	// Parametric: the text the function emits depends on its string / parser.Expression parameters; it is evaluated
 	// at each call site (Inline) and has no skeletons of its own
-	Parametric bool
-	paramKnown bool
-	nInlined   int // call sites at which the helper was evaluated in place
-	nOpaque    int // call sites modelled as a call
+	Parametric     bool
+	paramKnown     bool
+	exprParametric bool // parametric through a parser.Expression parameter (a "write this expression" wrapper)
+	nInlined       int  // call sites at which the helper was evaluated in place
+	nOpaque        int  // call sites modelled as a call
 }
 
 type GEM struct {
@@ -261,7 +263,7 @@ type env struct {
 	vals    map[types.Object][]Part // string-valued locals and local builders
 	genvars map[types.Object]bool
 	rows    map[types.Object]map[string]ast.Expr // loop variable of an unrolled constant table → its fields' expressions
-	alias   map[types.Object]string               // Expression parameter of an inlined helper → the caller's expression text
+	alias   map[types.Object]string              // Expression parameter of an inlined helper → the caller's expression text
 }
 
 func newEnv() *env {
@@ -850,7 +852,7 @@ func (ev *gemEval) call(call *ast.CallExpr, e *env, onEmit func(*Emit)) []Node {
 			}
 			// worth evaluating here only if the caller passes code text it knows (a constant, a generated variable name):
 			// an opaque string (an element or attribute name held in a variable) says no more at the call site than inside
-			informative := false
+			informative := cg.exprParametric
 			for _, parts := range e2.vals {
 				for _, pt := range parts {
 					if pt.Kind == PConst || pt.Kind == PGenVar {
@@ -1686,6 +1688,9 @@ func hasBranchStmt(b *ast.BlockStmt) bool {
 // of constant strings or of struct literals with constant fields, and is never assigned to (nor are its elements).
 func (ev *gemEval) constTable(x ast.Expr) []tableRow {
 	info := ev.info()
+	if lit, ok := ast.Unparen(x).(*ast.CompositeLit); ok {
+		return ev.tableRows(lit) // a table written in the range clause itself
+	}
 	id, ok := ast.Unparen(x).(*ast.Ident)
 	if !ok {
 		return nil
@@ -1739,6 +1744,11 @@ func (ev *gemEval) constTable(x ast.Expr) []tableRow {
 	if !ok || mutated {
 		return nil
 	}
+	return ev.tableRows(cl)
+}
+
+func (ev *gemEval) tableRows(cl *ast.CompositeLit) []tableRow {
+	info := ev.info()
 	var rows []tableRow
 	for _, el := range cl.Elts {
 		if tv, ok := info.Types[el]; ok && tv.Value != nil && tv.Value.Kind() == constant.String {
@@ -1793,7 +1803,49 @@ func (g *GEM) parametric(gf *GFunc) bool {
 		}
 	}
 	if len(params) == 0 {
-		return false
+		// a small wrapper around "write this expression": a parser.Expression parameter whose text is emitted directly,
+		// in a body without branches or loops
+		exprParams := map[types.Object]bool{}
+		for _, prm := range gf.Decl.Type.Params.List {
+			if t := g.info.TypeOf(prm.Type); t != nil && types.Identical(t, g.exprType) {
+				for _, nm := range prm.Names {
+					exprParams[g.info.Defs[nm]] = true
+				}
+			}
+		}
+		if len(exprParams) == 0 {
+			return false
+		}
+		emitsText, branches := false, false
+		ast.Inspect(gf.Decl.Body, func(n ast.Node) bool {
+			switch x := n.(type) {
+			case *ast.ForStmt, *ast.RangeStmt, *ast.SwitchStmt, *ast.TypeSwitchStmt:
+				branches = true
+			case *ast.IfStmt:
+				// error checks only
+				if be, ok := ast.Unparen(x.Cond).(*ast.BinaryExpr); !ok || be.Op != token.NEQ || types.ExprString(be.Y) != "nil" || x.Else != nil {
+					branches = true
+				}
+			case *ast.CallExpr:
+				if g.emitterKind(x) != "" {
+					for _, a := range x.Args {
+						if se, ok := ast.Unparen(a).(*ast.SelectorExpr); ok && se.Sel.Name == "Value" {
+							if id, ok := ast.Unparen(se.X).(*ast.Ident); ok && exprParams[g.info.ObjectOf(id)] {
+								emitsText = true
+							}
+						}
+					}
+				}
+			}
+			return true
+		})
+		if !emitsText || branches {
+			return false
+		}
+		for k := range exprParams {
+			params[k] = true
+		}
+		gf.exprParametric = true
 	}
 	// the parameter occurs in the argument of an emitting call (a writer method or another emitter)
 	uses := false
